@@ -251,7 +251,8 @@ def verify_contracts(run, contracts, registry, mutate=None, collect=True):
                 "qualname": c.target, "file": os.path.relpath(ex.src_path, REPO), "lines": list(ex.src_lines),
                 "sha256": ex.src_sha, "obligations": len(ex.obls), "discharged": n_ok,
                 "backends": per_backend, "solver_s": round(tsum, 3),
-                "abstracted_statements": ex.abstracted, "callee_contracts_used": sorted(ex.used_contracts),
+                "abstracted_statements": [dict(t) for t in sorted({tuple(sorted(a.items())) for a in ex.abstracted})],
+                "callee_contracts_used": sorted(ex.used_contracts),
                 "block": c.block,
             })
             for u in ex.used_lib:
